@@ -142,6 +142,16 @@ def c19(tier):
     return core.finish("C19", tier, "exploration", cov, viols, inc, t0, ASSUME_SAN, min_evals=1000)
 
 
+def c18(tier):
+    t0 = time.time()
+    cfgs = vec.GROWTH_QUICK + (vec.GROWTH_THOROUGH if tier == "thorough" else [])
+    cov, viols, inc = sets.run_engine("C18", tier, cfgs, 26, 26, extra_args=["--deep"] if tier == "thorough" else [], crash_owners=("C18",))
+    cov["rule"] = ("append sweeps of n one-element appends (n<=3000 quick, 100000 thorough, clamped by the size_type) from 5 start states x 5 append methods per "
+                   "configuration, with allocator-call and relocation counters judged at every step (2*ceil(log2 n)+4 calls, each growth step >= ceil(1.5*old) "
+                   "unless clamped, 4n+8 relocations), plus a reserve/shrink_to_fit grid; distinct cell = (configuration, start state, method) or (operation, state class)")
+    return core.finish("C18", tier, "exploration", cov, viols, inc, t0, ASSUME_SAN, min_evals=1000)
+
+
 def setup():
     specs = [c.spec() for c in vec.QUICK]
     core.build_many(specs)
@@ -149,4 +159,4 @@ def setup():
     return 0
 
 
-CHECKS = {"C01": c01, "C02": c02, "C05": c05, "C06": c06, "C07": c07, "C03": c03, "C04": c04, "C11": c11, "C12": c12, "C19": c19}
+CHECKS = {"C01": c01, "C02": c02, "C05": c05, "C06": c06, "C07": c07, "C03": c03, "C04": c04, "C11": c11, "C12": c12, "C19": c19, "C18": c18}
